@@ -99,6 +99,13 @@ var entries = map[string]func(in []byte) error{
 		key := append([]byte{0x02}, bytes.Repeat([]byte{0x11}, 32)...)
 		tx.AddTxOut(wire.NewTxOut(2, append(append([]byte{33}, key...), 0xac), wire.TokenData{}))
 		tx.AddTxOut(wire.NewTxOut(3, []byte{0x03, 1, 2, 3, 0x75}, wire.TokenData{}))
+		// pay-to-pubkey scripts cut off right behind the key (a bare push of 33 / 65 bytes), the key being in the filter
+		ukey := append([]byte{0x04}, bytes.Repeat([]byte{0x22}, 64)...)
+		f.Add(key)
+		f.Add(ukey)
+		tx.AddTxOut(wire.NewTxOut(4, append([]byte{33}, key...), wire.TokenData{}))
+		tx.AddTxOut(wire.NewTxOut(5, append([]byte{65}, ukey...), wire.TokenData{}))
+		tx.AddTxOut(wire.NewTxOut(6, append([]byte{33}, key[:32]...), wire.TokenData{}))
 		f.MatchTxAndUpdate(bchutil.NewTx(tx))
 		blk := wire.NewMsgBlock(wire.NewBlockHeader(1, &chainhash.Hash{}, &chainhash.Hash{}, 0, 0))
 		blk.AddTransaction(tx)
@@ -141,6 +148,11 @@ var entries = map[string]func(in []byte) error{
 			return fmt.Errorf("rejected")
 		}
 		return nil
+	},
+	// in: a serialized public key as received from a peer / read from a script
+	"NewAddressPubKey": func(in []byte) error {
+		_, err := bchutil.NewAddressPubKey(in, &chaincfg.MainNetParams)
+		return err
 	},
 	// in: p(1) then N-prefixed filter bytes
 	"GcsFromNBytesAndQuery": func(in []byte) error {
@@ -477,6 +489,16 @@ func runC08(c *Ctx) {
 				in = append(in, randBytes(r, 32*nh)...)
 				call("MerkleExtract", append(in, fl...))
 			}
+		}
+	}
+	// serialized public keys of every length 0..70 with every format byte that means something
+	for n := 0; n <= 70; n++ {
+		for _, fb := range []byte{0, 2, 3, 4, 6, 7} {
+			pk := randBytes(r, n)
+			if n > 0 {
+				pk[0] = fb
+			}
+			call("NewAddressPubKey", pk)
 		}
 	}
 	// GCS: N-prefixed bytes declaring N in {0, 1, 2^16, 2^22, 2^24, 2^32-1} over 0..8 payload bytes
